@@ -891,7 +891,7 @@ Lemma declined_is_none_or_fail T v :
   (try_convert T v = Fail "internal" /\ exists id tbl id', v = DJ id tbl /\ T = FJson id').
 Proof.
   unfold try_convert.
-  destruct T as [t|id elem|id|id|id kd [[eid ekd]|]]; destruct v as [|vt sv|vid tbl|s|vid vkd conv]; cbn [dval_ty fty_id];
+  destruct T as [t|id elem|id|id|id kd [[eid ekd]|]|id]; destruct v as [|vt sv|vid tbl|s|vid vkd conv]; cbn [dval_ty fty_id];
     try (left; eexists; reflexivity); try (right; left; reflexivity).
   all: match goal with |- context [if ?c then _ else _] => destruct c end;
     try (left; eexists; reflexivity); try (right; left; reflexivity).
@@ -1334,7 +1334,7 @@ Proof.
   - (* nil *)
     destruct T; try discriminate; reflexivity.
   - apply andb_prop in Hv as [Hv Hrel]. apply andb_prop in Hv as [Hvt Hsv].
-    destruct T as [t|id e|id|id|id kd]; try discriminate.
+    destruct T as [t|id e|id|id|id kd ?|id]; try discriminate.
     + (* scalar target *)
       cbn [spec].
       destruct (N.eqb_spec (s_id t) (s_id vt)) as [E|Hne].
